@@ -118,7 +118,7 @@ theorem runFull_some (zt : ZT) (hzt : ∀ p, -1 ≤ zt p ∧ zt p ≤ 1) (tp : N
       ∃ r, runFull zt tp sg n c first segs = some r
   | [], n, c, first, _, _ => ⟨_, rfl⟩
   | seg :: segs, n, c, first, hs, hcont => by
-    obtain ⟨c', recs, htd, hs', hnz, hend⟩ := emtSafe_step c zt hzt hs seg first (tp n).1 (tp n).2 sg hcont
+    obtain ⟨c', recs, htd, hs', hnz, hend, _⟩ := emtSafe_step c zt hzt hs seg first (tp n).1 (tp n).2 sg hcont
     obtain ⟨r, hr⟩ := runFull_some zt hzt tp sg segs (n + 1) (trim c') (first + seg.length) hs' (Or.inr ⟨hnz, hend.symm⟩)
     refine ⟨(r.1, recs ++ r.2), ?_⟩
     unfold runFull stepFull
